@@ -88,6 +88,18 @@ class C07(Prop):
                 out.append(Case("run", self.history(rng, sc, rng.randint(3, 5)), "literal-scenario"))
         for _ in range(n):
             out.append(Case("run", self.history(rng, clash_script(rng), rng.randint(3, 8)), "name-clash"))
+        # deep recursion that ends in an error / panic / normally, then deep recursion again: the budget of nested calls is per run
+        deep = ("function down(k) { if (k == 0) { if (Mode == 1) { return 1 / 0; } if (Mode == 2) { panic(\"deep\"); } if (Mode == 3) { return nosuch(); } return 0; } "
+                "return 1 + down(k - 1); } return down(2600);")
+        for _ in range(6 if tier == "thorough" else 2):
+            objs = [enc_struct([("Mode", m)]) for m in (0, 1, 2, 3)]
+            order = [rng.choice([1, 2, 3]), 0, rng.choice([1, 2, 3]), rng.choice([1, 2, 3]), 0, 0]
+            ops = ["ctx:none", "prepare:" + rng.choice(["opt", "noopt"])] + ["exec:%d" % o for o in order]
+            exp = {}
+            for j, o in enumerate(order):
+                if o == 0:
+                    exp["o%d.class" % (j + 2)] = "ok"; exp["o%d.value" % (j + 2)] = "i2600"
+            out.append(Case("run", {"script": vlib.hx(deep), "objs": ";".join(objs), "ops": ";".join(ops)}, "deep-recursion", expect=exp, note=deep))
         for _ in range(n):
             g = gen.Gen(rng, max_depth=2, illtyped=0.1)
             src = g.program(nstmts=rng.randint(2, 5), nfuncs=rng.randint(0, 2), depth=2)
